@@ -19,6 +19,10 @@ type dirEffect struct {
 	val  int // inode id, 0 = absent
 	p    *Term
 	pv   *Term
+	// first half of a rename into another directory: under the standard model the entry under the
+	// final name is durable only after an fsync of the directory it moved *into*; an fsync of the
+	// directory it left does not force the (atomic) rename
+	crossSrc bool
 }
 
 type chunk struct {
@@ -64,7 +68,7 @@ func (in *Interp) newCrashModel(trace []fsEvent, power bool, tag string) *crashM
 		case "unlink":
 			cm.effects = append(cm.effects, &dirEffect{idx: i, dir: ev.Dir, name: nameKey(ev.Name), val: 0})
 		case "rename":
-			src := &dirEffect{idx: i, dir: ev.Dir, name: nameKey(ev.Name), val: 0}
+			src := &dirEffect{idx: i, dir: ev.Dir, name: nameKey(ev.Name), val: 0, crossSrc: ev.Dir != ev.Dir2}
 			cm.effects = append(cm.effects, src)
 			cm.effects = append(cm.effects, &dirEffect{idx: i, dir: ev.Dir2, name: nameKey(ev.Name2), val: ev.Ino, pair: src})
 		case "write":
@@ -96,7 +100,7 @@ func (in *Interp) newCrashModel(trace []fsEvent, power bool, tag string) *crashM
 		e.pv = pv
 		// a later fsync of the directory (executed before the crash) forces persistence
 		for _, f := range cm.fsyncs[e.dir] {
-			if f > e.idx {
+			if f > e.idx && !e.crossSrc {
 				cm.cons = append(cm.cons, ts.Implies(ts.Ult(kc(f), cm.k), pv))
 			}
 		}
